@@ -137,7 +137,7 @@ PROPS = {
         assumptions=[],
         jobs=[
             dict(harness="hist", prop="hist_c12enum", kind="enum", size=(5, 7)),
-            dict(harness="hist", prop="hist_c12", cases=(10000, 250000), size=(40, 200)),
+            dict(harness="hist", prop="hist_c12", cases=(10000, 60000), size=(40, 120)),
         ],
     ),
     "C13": dict(
@@ -265,7 +265,7 @@ PROPS = {
         level_note="serialisations are compared through the independent parser (AEC order is unspecified)",
         technique="property-based testing: stateful differential testing against a rebuilt reference, ASan as memory oracle",
         assumptions=[],
-        jobs=[dict(harness="tables", prop="c19_value", cases=(32000, 600000), size=(30, 80))],
+        jobs=[dict(harness="tables", prop="c19_value", cases=(32000, 200000), size=(30, 80))],
     ),
 
     "C14": dict(
@@ -318,7 +318,7 @@ PROPS = {
         assumptions=["a persistent failure is tied to the file (device, inode), not to the descriptor number"],
         jobs=[
             dict(harness="crash", prop="c16_align", kind="enum"),
-            dict(harness="crash", prop="c16_faults", cases=(480, 32000), size=(30, 60)),
+            dict(harness="crash", prop="c16_faults", cases=(480, 6000), size=(30, 60)),
         ],
     ),
 
@@ -376,8 +376,8 @@ PROPS = {
         assumptions=[],
         extra_harnesses=["cdns-merge", "cdns-itemcount"],
         jobs=[
-            dict(harness="tools", prop="c18_merge", cases=(4800, 160000), size=(30, 60)),
-            dict(harness="tools", prop="c18_itemcount", cases=(2400, 80000), size=(20, 60)),
+            dict(harness="tools", prop="c18_merge", cases=(4800, 40000), size=(30, 60)),
+            dict(harness="tools", prop="c18_itemcount", cases=(2400, 20000), size=(20, 60)),
         ],
     ),
 }
